@@ -139,6 +139,9 @@ CONTRACTS = {
     A + "dec2dms": dict(params=dict(x=U("deg")),
                         ret=lambda a: AV(num="str", kind=fs("dms") | (
                             (a.get("x", TOP).kind or fs()) & POS_KINDS))),
+    PKG + ".MIMAS.galactic2fk5": dict(
+        params=dict(l=LON_RAD, b=LAT_RAD),
+        ret=lambda a: AV(num="obj", elts=(LON_RAD, LAT_RAD))),
     A + "translate": dict(params=dict(ra=LON_DEG, dec=LAT_DEG, r=DEG,
                                       theta=ANG),
                           ret=lambda a: SKYPOS),
@@ -205,7 +208,8 @@ CONTRACTS = {
               "rad" if a.get("degrees", TOP).cval is False else None,
               "lat"))),
     PKG + ".regions.Region.add_circles": dict(
-        params=dict(ra_cen=LON_RAD, dec_cen=LAT_RAD, radius=RAD),
+        params=dict(ra_cen=LON_RAD, dec_cen=LAT_RAD,
+                    radius=U("rad", "len")),
         ret=lambda a: NONE),
     PKG + ".regions.Region.add_poly": dict(
         params=dict(positions=colarray(LON_RAD, LAT_RAD)),
@@ -344,9 +348,13 @@ class UnitLib(Lib):
                 return AV(num="obj", cls="astropy.WCS")
         if cq == PKG + ".regions.Region" and attr == "maxdepth":
             return INT
-        if cq == PKG + ".MIMAS.Dummy" and attr in (
-                "include_circles", "exclude_circles", "include_polygons",
-                "exclude_polygons"):
+        if cq == PKG + ".MIMAS.Dummy" and attr in ("include_circles",
+                                                   "exclude_circles"):
+            # documented: [[ra, dec, radius], ...], units are degrees
+            return container(AV(num="obj", cls="flatarray",
+                                elts=(LON_DEG, LAT_DEG, U("deg", "len"))))
+        if cq == PKG + ".MIMAS.Dummy" and attr in ("include_polygons",
+                                                   "exclude_polygons"):
             # documented: "units are degrees"
             return container(container(DEG))
         return None
@@ -918,6 +926,9 @@ class UnitLib(Lib):
                     # a container of unit-carrying values becomes an array
                     # carrying that unit
                     a = a.with_(unit=a.elem.unit, kind=a.elem.kind)
+                if dotted in ("numpy.array", "numpy.asarray") and \
+                        a.cls == "flatarray" and a.elts is not None:
+                    return a
                 if dotted in ("numpy.array", "numpy.asarray"):
                     el = a.elem if a.elem is not None else None
                     # np.array(list(zip(a, b))) -> 2-column array
@@ -1026,6 +1037,10 @@ class UnitLib(Lib):
                 recv = it.eval(f.value, env)
             if a in PIX2WORLD or a in WORLD2PIX:
                 return self._wcs_call(it, n, a, recv, args, kwargs)
+            if a == "reshape" and recv.cls == "flatarray" and \
+                    recv.elts is not None and args and \
+                    args[0].cval == len(recv.elts):
+                return AV(num="obj", elts=recv.elts, src=recv.src)
             if a in ("transpose",) and recv.cls == "colarray":
                 return AV(num="obj", elts=recv.elts, src=recv.src)
             if a == "transpose" and recv.cls == "rowarray" and \
@@ -1103,6 +1118,9 @@ class UnitLib(Lib):
         if a.cls == "colarray" and a.elts is not None:
             return colarray(*[self._convert(it, n, [c], frm, to, dotted)
                               for c in a.elts], src=a.src)
+        if a.cls == "flatarray" and a.elts is not None:
+            return AV(num="obj", cls="flatarray", src=a.src, elts=tuple(
+                self._convert(it, n, [c], frm, to, dotted) for c in a.elts))
         if a.unit is not None and frm not in a.unit and "1" not in a.unit:
             self.report(it, n, "unit-convert",
                         "%s applied to a value already in %s" %
@@ -1241,6 +1259,14 @@ def facet_mismatch(want: AV, got: AV, idx=True, other=True, axes=True):
             if w and g and not (w & g):
                 out.append("%s where %s is required" % (sorted(g),
                                                         sorted(w)))
+    if other and want.kind is not None and got.kind is not None:
+        # an angular LENGTH (radius, separation) is not a coordinate
+        if "len" in want.kind and got.kind & POS_KINDS:
+            out.append("a %s coordinate where an angular length is required"
+                       % sorted(got.kind & POS_KINDS))
+        if "len" in got.kind and want.kind & POS_KINDS:
+            out.append("an angular length where a %s coordinate is required"
+                       % sorted(want.kind & POS_KINDS))
     if other and want.kind is not None and "ang" in want.kind and \
             got.kind is not None and "neg" in got.kind:
         out.append("the NEGATED angle where the angle itself is required "
